@@ -82,6 +82,21 @@ def is_rcall_fail(f, kinds):
 def is_val(f, pred, val):
     return f is not None and f[0] == 'val' and f[1] == pred and f[2] == val
 
+def is_unit_enum_serialisation(e):
+    """unwrap(serde_json::to_value(<unit variant of a crate-local enum>)) and unwrap(as_str(<that value>)): serialising a field-less
+    variant yields a JSON string and cannot fail"""
+    a = e.get('abort')
+    if not (a and a[0] == 'unwrap' and len(a) > 1 and isinstance(a[1], tuple)): return False
+    x = a[1]
+    for _ in range(6):
+        if x[0] == 'call' and 'serde_json::to_' in str(x[1]):
+            args = x[2]
+            return len(args) == 1 and args[0][0] == 'adt' and args[0][3] == () and is_local_type(args[0][1])
+        if x[0] in ('v', 'f') and isinstance(x[1], tuple): x = x[1]
+        elif x[0] == 'call' and x[2] and isinstance(x[2][0], tuple) and str(x[1]).endswith('as_str'): x = x[2][0]
+        else: return False
+    return False
+
 def alternatives(e, table, aborts_table):
     """the tables are keyed by predicate, not by whether the refusal is an `Err` or a panic: `x.unwrap()` <-> `x?`,
     `a - b` (panicking) <-> `a.checked_sub(b)?` are the same refusal. Yields (table, entry-view) pairs to try."""
